@@ -168,6 +168,10 @@ def run(ctx, rep) -> None:
     rep.attempt("same_recipe", same_recipe, ctx, rep, "C05.2")
     rep.attempt("who_may_write", who_may_write, ctx, rep, "C05.3", only_kinds=set(), include_params=True)
     rep.attempt("split_structure", split_structure, ctx, rep, "C05.4")
+    from .common import utility_semantics
+
+    rep.rule("C05.7", "the pure utilities this property is built on compute what they document (concrete interpretation on small cases)")
+    rep.attempt("utility_semantics", utility_semantics, ctx, rep, "C05.7", ("merge_small_dims", "compress_list", "generate_pairwise_indices"))
     from .c04 import _change_guards
 
     rep.rule("C05.6", "the masked parameter blocks handed to the update are re-derived whenever the set of gradients changes (guard on the selector itself, never on a count)")
